@@ -111,8 +111,39 @@ func (s *Sim) tableCaps() []tableCap {
 }
 
 func (s *Sim) opShrink(op *Op) {
-	if s.Flags.DropShrink || s.locked() {
+	if s.Flags.DropShrink {
 		s.skip(op)
+		return
+	}
+	if s.locked() {
+		// Shrink re-allocates table columns and frees tables: with a query open it is a
+		// structure-changing operation like any other (an open query caches column
+		// pointers) and must panic without effect (C07 lock.blocks).
+		// Either it is rejected like other structural operations, or it must leave every
+		// open query intact: the pointers a positioned query yields are still the entity's storage.
+		s.C.Faults["shrink_while_locked"]++
+		p, _ := s.call(func() { s.W.Shrink() })
+		if p {
+			return
+		}
+		u := s.W.Unsafe()
+		for _, oq := range s.queries {
+			if oq.Done || !oq.OnEntity {
+				continue
+			}
+			h := oq.Q.Entity()
+			ts := s.filters[oq.F].Spec.Ts
+			for i, ptr := range oq.Q.Get() {
+				if U[ts[i]].Size == 0 {
+					continue
+				}
+				if want := u.Get(h, s.ids[ts[i]]); ptr != want {
+					s.violate("C07", "lock.allows", "Shrink/stale_query_pointers", true,
+						"Shrink succeeded on a world locked by %d open queries and invalidated them: an open query's pointer for T%02d of entity %v is %x, the entity's storage is %x (writes through the query are lost)", s.lockDepth, ts[i], h, ptrOf(ptr), ptrOf(want))
+					return
+				}
+			}
+		}
 		return
 	}
 	s.C.Faults["shrink"]++
